@@ -142,6 +142,12 @@ func c14XmlPrefs(r Req) yqlib.XmlPreferences {
 	if r.Has("indent") {
 		p.Indent = r.Int("indent", 2)
 	}
+	if r.Has("xml_proc") {
+		p.ProcInstPrefix = r.Str("xml_proc")
+	}
+	if r.Has("xml_directive") {
+		p.DirectiveName = r.Str("xml_directive")
+	}
 	if r.Has("xml_keep_ns") {
 		p.KeepNamespace = r.Bool("xml_keep_ns")
 	}
